@@ -274,6 +274,8 @@ fn main() {
     });
     let parked = parked_owner_histories(&mut rep.violations);
     rep.set("parked_owner_histories", parked);
+    let cancelled = cancelled_async_histories(&mut rep.violations);
+    rep.set("cancelled_instrument_async_histories", cancelled);
     let mut all_states = BTreeSet::new();
     let (mut h, mut t, mut ap) = (1u64, 0u64, 0u64);
     for s in states {
@@ -422,6 +424,89 @@ fn parked_owner_histories(v: &mut Violations) -> u64 {
         }
     }
     n
+}
+
+/// The owner kept across an `.await` inside `Instrumented::instrument_async`: the future is polled
+/// `polls` times and then either completes (the result is emitted) or is dropped while suspended
+/// (cancellation: a timeout, a lost select!). Either way the entry is appended exactly once, when
+/// the owner goes (and a flush guard taken before has gone), with the mutations made so far.
+fn cancelled_async_histories(v: &mut Violations) -> u64 {
+    use metrique::instrument::Instrumented;
+    use std::future::Future;
+    let mut n = 0;
+    for suspend_points in 0..=2usize {
+        for cancel_after_polls in [None, Some(1usize), Some(2)] {
+            for guard_first in [false, true] {
+                if let Some(p) = cancel_after_polls {
+                    if p > suspend_points {
+                        continue; // the future would have completed
+                    }
+                }
+                n += 1;
+                let sink: Sink = VecEntrySink::new();
+                let owner = Work::default().append_on_drop(sink.clone());
+                let guard = guard_first.then(|| owner.flush_guard());
+                // one mutation before every suspension point and one at the end
+                let fut = Instrumented::instrument_async(owner, async |m: &mut AppendAndCloseOnDrop<Work, Sink>| {
+                    for _ in 0..suspend_points {
+                        m.a += 1;
+                        YieldOnce(false).await;
+                    }
+                    m.a += 1;
+                });
+                let mut fut = Box::pin(fut);
+                let mut cx = std::task::Context::from_waker(std::task::Waker::noop());
+                let mut polls = 0;
+                let mut done = None;
+                loop {
+                    if cancel_after_polls == Some(polls) {
+                        break;
+                    }
+                    polls += 1;
+                    if let std::task::Poll::Ready(r) = fut.as_mut().poll(&mut cx) {
+                        done = Some(r);
+                        break;
+                    }
+                }
+                let history = json!({"suspension_points": suspend_points, "future_dropped_after_polls": cancel_after_polls, "flush_guard_taken_before": guard_first});
+                let mutations = match (&done, cancel_after_polls) {
+                    (Some(_), _) => suspend_points as u64 + 1,
+                    (None, Some(p)) => p as u64, // one mutation per poll that ran up to a suspension point
+                    (None, None) => unreachable!(),
+                };
+                match done {
+                    Some(instrumented) => instrumented.emit(),
+                    None => drop(fut),
+                }
+                let seen_before_guard: Vec<u64> = sink.drain().iter().map(|e| to_test_entry(e).metrics["a"].as_u64()).collect();
+                let expect_before: Vec<u64> = if guard_first { vec![] } else { vec![mutations] };
+                if seen_before_guard != expect_before {
+                    v.add("seq:instrument-async:owner-across-await", format!("after the future {} the sink has seen a = {seen_before_guard:?}, expected {expect_before:?}", if cancel_after_polls.is_some() { "was dropped while suspended" } else { "completed and was emitted" }), history.clone());
+                }
+                drop(guard);
+                let seen_after: Vec<u64> = sink.drain().iter().map(|e| to_test_entry(e).metrics["a"].as_u64()).collect();
+                let expect_after: Vec<u64> = if guard_first { vec![mutations] } else { vec![] };
+                if seen_after != expect_after {
+                    v.add("seq:instrument-async:owner-across-await", format!("after the flush guard was dropped the sink has seen a = {seen_after:?} more, expected {expect_after:?}"), history);
+                }
+            }
+        }
+    }
+    n
+}
+
+/// a future that is pending exactly once
+struct YieldOnce(bool);
+impl std::future::Future for YieldOnce {
+    type Output = ();
+    fn poll(mut self: std::pin::Pin<&mut Self>, _: &mut std::task::Context<'_>) -> std::task::Poll<()> {
+        if self.0 {
+            std::task::Poll::Ready(())
+        } else {
+            self.0 = true;
+            std::task::Poll::Pending
+        }
+    }
 }
 
 fn explore_one(st: &mut St, hist: &mut Vec<Op>, model: &Model, op: Op) {
